@@ -307,6 +307,14 @@ def rule_r2(prog, res):
         idx = unparse(s.targets[0].slice)
         v = unparse(s.value)
         where = '%s:%d' % (m.relpath, s.lineno)
+        lp0 = next((a for a in ancestors(s) if isinstance(a, ast.For)), None)
+        it0 = unparse(lp0.iter).replace(' ', '') if lp0 is not None else ''
+        if it0 == 'enumerate(args)' and isinstance(
+                lp0.target, ast.Tuple) and len(lp0.target.elts) == 2:
+            # for i, arg in enumerate(args): in_object[i] = arg
+            i0, a0 = [unparse(e) for e in lp0.target.elts]
+            if v == a0:
+                v = 'args[%s]' % i0
         if v.startswith('args['):
             ok = v == 'args[%s]' % idx
             pos_ok = pos_ok or ok
